@@ -76,3 +76,39 @@ pub fn raw_value_cmp(
 ) -> Result<Option<std::cmp::Ordering>> {
     stored.partial_cmp(key)
 }
+
+/// Schedule points. Each call site reports an event (kind, object id, two values) to a
+/// process-global callback installed by the harness (which logs it and may delay the thread).
+pub mod ev {
+    /// decoder thread: a chunk has been written to the shared buffer (a = bytes written so far).
+    pub const CHUNK: u8 = 1;
+    /// decoder thread, under the mutex: the decoded length is published (a = published length).
+    pub const PUBLISH: u8 = 2;
+    /// decoder thread, under the mutex: the decoder stopped on an error (a = decoded length).
+    pub const FAIL: u8 = 3;
+    /// reader thread: about to wait until `a` bytes are decoded.
+    pub const WAIT_BEGIN: u8 = 4;
+    /// reader thread, under the mutex: the wait for `a` bytes returned (b = decoded length * 2 + failed).
+    pub const WAIT_END: u8 = 5;
+    /// reader thread: a slice of the shared buffer of length `a` is taken.
+    pub const SLICE: u8 = 6;
+    /// content pack, under the cache mutex: cluster `a` is asked for.
+    pub const CACHE_GET: u8 = 7;
+    /// content pack, under the cache mutex: cluster `a` is not in the cache and is loaded.
+    pub const CACHE_MISS: u8 = 8;
+}
+
+type EventFn = dyn Fn(u8, usize, usize, usize) + Send + Sync;
+static EVENT_CB: std::sync::OnceLock<Box<EventFn>> = std::sync::OnceLock::new();
+
+/// Install the event callback (once per process).
+pub fn set_event_callback(f: Box<EventFn>) {
+    let _ = EVENT_CB.set(f);
+}
+
+#[inline]
+pub(crate) fn event(kind: u8, id: usize, a: usize, b: usize) {
+    if let Some(f) = EVENT_CB.get() {
+        f(kind, id, a, b)
+    }
+}
